@@ -40,22 +40,30 @@ def gen_cases(ctx):
         return {"id": f"{dm[0]}x{dm[1]}-d{d}-ax{axis}-bg{bg}-{fam}-{tag}", "dm": list(dm), "d": d, "axis": axis, "bg": bg, "arr": vals, "family": fam, "model": model}
 
     # 1. every 2-level design on small grids
-    grids = [((1, 1), (1,)), ((2, 2), (1,)), ((3, 3), (1, 2, 3)), ((3, 4), (1, 2, 3)), ((4, 3), (2, 3))]
+    # (axis, background) is fixed per (grid, diameter) group - one jit compilation each - and cycles over all six
+    # combinations across groups; on 3x3 every combination is used with every diameter
+    grids = [((2, 2), (1,)), ((3, 3), (1, 2, 3)), ((3, 4), (2, 3))]
     if not ctx.quick:
-        grids += [((4, 4), (1, 2, 3)), ((2, 5), (1,)), ((5, 5), ())]
+        grids += [((3, 4), (1,)), ((4, 3), (1, 2, 3)), ((4, 4), (1, 2, 3)), ((2, 5), (1,))]
+    gi = 0
     for dm, ds in grids:
         n = dm[0] * dm[1]
         for d in ds:
-            for k in range(2**n):
-                vals = [1 if (k >> i) & 1 else -1 for i in range(n)]
-                yield emit(dm, d, (k + n) % 3, ((k * 2654435761) >> 9) & 1, vals, "all2", str(k))
+            combos = [(a, b) for a in range(3) for b in range(2)] if dm == (3, 3) else [(gi % 3, (gi // 3) % 2)]
+            gi += 1
+            for axis, bg in combos:
+                for k in range(2**n):
+                    if ctx.quick and n > 9 and d == 3 and k % 4 != 1:
+                        continue  # quick: a quarter of the 3x4 designs with the 3x3 brush
+                    vals = [1 if (k >> i) & 1 else -1 for i in range(n)]
+                    yield emit(dm, d, axis, bg, vals, "all2", str(k))
     ctx.exhaustive = False
     # 4x4: all 65536 in thorough (above); quick samples
     if ctx.quick:
         for d in (2, 3):
             for j in range(700):
                 k = rng.randrange(2**16)
-                yield emit((4, 4), d, j % 3, j % 2, [1 if (k >> i) & 1 else -1 for i in range(16)], "rand2", f"{j}")
+                yield emit((4, 4), d, d % 3, d % 2, [1 if (k >> i) & 1 else -1 for i in range(16)], "rand2", f"{j}")
     # 2. random designs with distinct values (no ties), and with few levels (many ties)
     shapes = [(5, 5), (6, 7), (8, 8), (7, 5)] if ctx.quick else [(5, 5), (6, 7), (8, 8), (7, 5), (10, 9), (12, 12), (16, 5)]
     per = 25 if ctx.quick else 300
@@ -64,6 +72,8 @@ def gen_cases(ctx):
         for d in DIAM:
             if min(dm) < DIAM[d]:
                 continue
+            gi += 1
+            axis, bg = gi % 3, (gi // 3) % 2
             for j in range(per):
                 if j % 3 == 2:
                     vals = [rng.randrange(-2, 3) for _ in range(n)]
@@ -76,13 +86,14 @@ def gen_cases(ctx):
                         w = dm[1]
                         vals = [vals[i] + 3 * n * (1 if ((i // w) // 3 + (i % w) // 3 + j) % 2 else -1) for i in range(n)]
                         fam = "blocks"
-                yield emit(dm, d, j % 3, (j // 3) % 2, vals, fam, str(j), model=1 if n <= 64 else 0)
+                # the step-by-step model comparison (drift detail) is expensive in TLC: small grids and a sample
+                yield emit(dm, d, axis, bg, vals, fam, str(j), model=1 if (n <= 25 or j < 3) else 0)
     # 3. grids smaller than the brush array (convolve2d swaps its operands there)
     for dm, d in (((3, 3), 4), ((4, 4), 5), ((3, 4), 5), ((2, 2), 3), ((2, 2), 2)):
         n = dm[0] * dm[1]
         for j in range(40 if ctx.quick else 400):
             k = rng.randrange(2**n)
-            yield emit(dm, d, j % 3, j % 2, [1 if (k >> i) & 1 else -1 for i in range(n)], "small", str(j))
+            yield emit(dm, d, d % 3, (d + dm[0]) % 2, [1 if (k >> i) & 1 else -1 for i in range(n)], "small", str(j))
 
 
 _MODS = {}
@@ -184,3 +195,7 @@ def run(ctx):
         fam[r["family"] + "/d" + r["d"]] = fam.get(r["family"] + "/d" + r["d"], 0) + 1
     ctx.extra_cov["cases_by_family_and_diameter"] = fam
     ctx.validate(*TRACE, recs, inputs, classify=classify, chunk=CHUNK)
+
+
+def gkey(c):
+    return (tuple(c["dm"]), c["d"], c["axis"], c["bg"])
